@@ -39,9 +39,17 @@ func (vc *VC) strPrelude() {
   (forall ((i Int)) (! (= (select (sbytes (str_sub a lo hi)) i) (ite (and (<= 0 i) (< i (- hi lo))) (select (sbytes a) (+ lo i)) 0)) :pattern ((select (sbytes (str_sub a lo hi)) i)))))
   :pattern ((str_sub a lo hi)))))
 (declare-fun str_lt (Str Str) Bool)
+(declare-fun str_fd (Str Str) Int)
 (assert (forall ((a Str)) (not (str_lt a a))))
 (assert (forall ((a Str) (b Str) (c Str)) (! (=> (and (str_lt a b) (str_lt b c)) (str_lt a c)) :pattern ((str_lt a b) (str_lt b c)))))
-(assert (forall ((a Str) (b Str)) (! (or (str_lt a b) (str_lt b a) (= a b)) :pattern ((str_lt a b)))))`)
+(assert (forall ((a Str) (b Str)) (! (=> (and (str_wf a) (str_wf b)) (or (str_lt a b) (str_lt b a) (= a b))) :pattern ((str_lt a b)))))
+(assert (forall ((a Str) (b Str)) (! (=> (and (>= (slen a) 0) (>= (slen b) 0))
+  (and (<= 0 (str_fd a b)) (<= (str_fd a b) (slen a)) (<= (str_fd a b) (slen b))
+       (forall ((j Int)) (! (=> (and (<= 0 j) (< j (str_fd a b))) (= (select (sbytes a) j) (select (sbytes b) j))) :pattern ((select (sbytes a) j)) :pattern ((select (sbytes b) j))))
+       (=> (and (< (str_fd a b) (slen a)) (< (str_fd a b) (slen b))) (not (= (select (sbytes a) (str_fd a b)) (select (sbytes b) (str_fd a b)))))
+       (= (str_lt a b) (or (and (= (str_fd a b) (slen a)) (< (str_fd a b) (slen b)))
+                           (and (< (str_fd a b) (slen a)) (< (str_fd a b) (slen b)) (< (select (sbytes a) (str_fd a b)) (select (sbytes b) (str_fd a b))))))))
+  :pattern ((str_lt a b)))))`)
 }
 
 func (vc *VC) strConcat(a, b string) string {
